@@ -1,204 +1,267 @@
 (* Raptor relay: tasks that a cancel request does not name are unaffected.
-   Everything the relay shows about a uid u -- to which queue it is put and
-   when, whether it fails, whether it is canceled, the complete round robin and
-   normal scheduling traffic -- is the same in the history with the request and
-   in the history without it, and so is where u waits. *)
+   What the relay shows about a uid u -- to which registered queue it is put
+   and when, that it goes out by round robin, whether it fails, whether it is
+   canceled, all normal scheduling traffic and all warnings -- is the same in
+   the history with the request and in the history without it, and so is where
+   u waits.  (Which queue the round robin picks for u is not part of the view:
+   it goes by the position among the wildcard tasks of the drain, and a named
+   task that is canceled in that drain does not take a position.) *)
 From Coq Require Import ZArith List Bool Arith Lia ZifyBool.
 From RP Require Import Relay.Model Relay.Oracle Relay.Lemmas Relay.Proofs.
 Import ListNotations.
 Open Scope Z_scope.
 
-Definition only (u : Z) (l : list Z) : list Z := filter (fun x => x =? u) l.
+Inductive uev :=
+| EFwd (q : Z)            (* put to the registered queue q *)
+| EFwdAny                 (* put to some queue by round robin *)
+| EFail
+| ECancel
+| ESched (us : list Z)
+| EWarn (n : Z).
 
-(* what an effect shows about u *)
-Definition view1 (u : Z) (o : out) : list out :=
+Definition view1 (u : Z) (o : out) : list uev :=
   match o with
-  | OPut q us => [OPut q (only u us)]
-  | OPut1 q v => [OPut1 q v]
-  | OFail v => if v =? u then [OFail v] else []
-  | OCancel us => if is_nil (only u us) then [] else [OCancel (only u us)]
-  | OSched us => [OSched us]
-  | OWarn n => [OWarn n]
+  | OPut q us => repeat (EFwd q) (cnt u us)
+  | OPut1 q v => if v =? u then [EFwdAny] else []
+  | OFail v => if v =? u then [EFail] else []
+  | OCancel us => repeat ECancel (cnt u us)
+  | OCancel1 v => if v =? u then [ECancel] else []
+  | OSched us => [ESched us]
+  | OWarn n => [EWarn n]
   end.
-Definition view (u : Z) (e : list out) : list out := flat_map (view1 u) e.
+Definition view (u : Z) (e : list out) : list uev := flat_map (view1 u) e.
 
 (* where u waits *)
-Definition pv (u : Z) (bl : list (Z * list Z)) : list (Z * list Z) :=
-  map (fun p => (fst p, only u (snd p))) bl.
+Definition kcnt (u k : Z) (bl : list (Z * list Z)) : nat := cnt u (key_list k bl).
 Definition sim (u : Z) (s1 s2 : state) : Prop :=
-  inq s1 = inq s2 /\ queues s1 = queues s2 /\ pv u (backlog s1) = pv u (backlog s2).
-
-Lemma only_app : forall u a b, only u (a ++ b) = only u a ++ only u b.
-Proof. intros; unfold only; apply filter_app. Qed.
+  inq s1 = inq s2 /\ queues s1 = queues s2 /\ gone s1 = gone s2
+  /\ cnt u (clist s1) = cnt u (clist s2)
+  /\ (forall k, kcnt u k (backlog s1) = kcnt u k (backlog s2))
+  /\ tot u (backlog s1) = tot u (backlog s2).
 
 Lemma view_app : forall u a b, view u (a ++ b) = view u a ++ view u b.
 Proof. intros; unfold view; apply flat_map_app. Qed.
 
-Lemma pv_look : forall u k bl, alook k (pv u bl) = option_map (only u) (alook k bl).
-Proof.
-  intros u k bl; induction bl as [|[n l] bl IH]; simpl; [reflexivity|].
-  destruct (n =? k); [reflexivity | exact IH].
-Qed.
+Lemma repeat_add : forall {A} (x : A) a b, repeat x (a + b) = repeat x a ++ repeat x b.
+Proof. intros A x a b; induction a as [|a IH]; simpl; [reflexivity | rewrite IH; reflexivity]. Qed.
 
-Lemma pv_aset : forall u n v bl, pv u (aset n v bl) = aset n (only u v) (pv u bl).
-Proof.
-  intros u n v bl; induction bl as [|[m w] bl IH]; simpl; [reflexivity|].
-  destruct (m =? n); simpl; [reflexivity | rewrite IH; reflexivity].
-Qed.
-
-Lemma pv_adel : forall u n bl, pv u (adel n bl) = adel n (pv u bl).
-Proof.
-  intros u n bl; induction bl as [|[m w] bl IH]; simpl; [reflexivity|].
-  destruct (m =? n); simpl; [reflexivity | rewrite IH; reflexivity].
-Qed.
-
-Lemma pv_aext : forall u n us bl, pv u (aext n us bl) = aext n (only u us) (pv u bl).
-Proof.
-  intros u n us bl. unfold aext. rewrite pv_aset, pv_look.
-  destruct (alook n bl); simpl; [rewrite only_app|]; reflexivity.
-Qed.
-
-Lemma look_sim : forall u k bl1 bl2, pv u bl1 = pv u bl2 ->
-  option_map (only u) (alook k bl1) = option_map (only u) (alook k bl2).
-Proof. intros u k bl1 bl2 H. rewrite <- !pv_look, H. reflexivity. Qed.
-
-(* ---------------- drain ---------------- *)
-Lemma fwd_group_sim : forall u qs n us bl1 bl2 bl1' o1 bl2' o2,
-  pv u bl1 = pv u bl2 -> fwd_group qs bl1 n us = (bl1', o1) -> fwd_group qs bl2 n us = (bl2', o2) ->
-  pv u bl1' = pv u bl2' /\ o1 = o2.
-Proof.
-  intros u qs n us bl1 bl2 bl1' o1 bl2' o2 H H1 H2. unfold fwd_group in *.
-  destruct (alook n qs); [injection H1 as <- <-; injection H2 as <- <-; auto|].
-  destruct (negb (is_nil qs) && (n =? star)); injection H1 as <- <-; injection H2 as <- <-; [auto|].
-  rewrite !pv_aext, H. auto.
-Qed.
-
-Lemma fwd_groups_sim : forall u qs g bl1 bl2 bl1' o1 bl2' o2,
-  pv u bl1 = pv u bl2 -> fwd_groups qs bl1 g = (bl1', o1) -> fwd_groups qs bl2 g = (bl2', o2) ->
-  pv u bl1' = pv u bl2' /\ o1 = o2.
-Proof.
-  intros u qs g; induction g as [|[n us] g IH]; intros bl1 bl2 bl1' o1 bl2' o2 H H1 H2; simpl in H1, H2.
-  - injection H1 as <- <-. injection H2 as <- <-. auto.
-  - destruct (fwd_group qs bl1 n us) as [a1 x1] eqn:E1. destruct (fwd_group qs bl2 n us) as [a2 x2] eqn:E2.
-    destruct (fwd_groups qs a1 g) as [b1 y1] eqn:F1. destruct (fwd_groups qs a2 g) as [b2 y2] eqn:F2.
-    injection H1 as <- <-. injection H2 as <- <-.
-    destruct (fwd_group_sim _ _ _ _ _ _ _ _ _ _ H E1 E2) as [A ->].
-    destruct (IH _ _ _ _ _ _ A F1 F2) as [B ->]. auto.
-Qed.
-
-(* ---------------- register / unregister ---------------- *)
-Lemma relay_key_sim : forall u q k bl1 bl2 bl1' o1 bl2' o2,
-  pv u bl1 = pv u bl2 -> relay_key q k bl1 = (bl1', o1) -> relay_key q k bl2 = (bl2', o2) ->
-  pv u bl1' = pv u bl2' /\ view u o1 = view u o2.
-Proof.
-  intros u q k bl1 bl2 bl1' o1 bl2' o2 H H1 H2. unfold relay_key in *.
-  pose proof (look_sim u k _ _ H) as L.
-  destruct (alook k bl1) as [l1|]; destruct (alook k bl2) as [l2|]; simpl in L; try discriminate;
-    injection H1 as <- <-; injection H2 as <- <-.
-  - injection L as L. rewrite !pv_adel, H. simpl. rewrite L. auto.
-  - auto.
-Qed.
-
-Lemma view_map_OFail : forall u l, view u (map OFail l) = map OFail (only u l).
+Lemma view_map_OFail : forall u l, view u (map OFail l) = repeat EFail (cnt u l).
 Proof.
   intros u l; induction l as [|x l IH]; simpl; [reflexivity|].
   unfold view in *. simpl. rewrite IH. destruct (x =? u); reflexivity.
 Qed.
 
-(* ---------------- cancel ---------------- *)
-Lemma only_matches : forall u us l, only u (matches us l) = matches us (only u l).
+Lemma view_rr : forall u qids us i, view u (rr qids i us) = repeat EFwdAny (cnt u us).
 Proof.
-  intros u us l; induction l as [|x l IH]; simpl; [reflexivity|].
-  unfold only, matches in *. simpl.
-  destruct (zmem x us) eqn:E1; destruct (x =? u) eqn:E2; simpl; rewrite ?E1, ?E2, IH; reflexivity.
+  intros u qids us; induction us as [|x us IH]; intros i; simpl; [reflexivity|].
+  unfold view in *. simpl. rewrite IH. destruct (x =? u); reflexivity.
 Qed.
 
-Lemma only_unnamed : forall u us l,
-  only u (filter (fun x => negb (zmem x us)) l) = filter (fun x => negb (zmem x us)) (only u l).
+Lemma view_sift : forall u us cl k cl' o, sift cl us = (k, cl', o) -> view u o = repeat ECancel (n_cancel u o).
 Proof.
-  intros u us l; induction l as [|x l IH]; simpl; [reflexivity|].
-  unfold only in *. simpl.
-  destruct (zmem x us) eqn:E1; destruct (x =? u) eqn:E2; simpl; rewrite ?E1, ?E2, IH; reflexivity.
+  intros u us; induction us as [|x us IH]; intros cl k cl' o H; simpl in H.
+  - injection H as <- <- <-. reflexivity.
+  - destruct (zmem x cl).
+    + destruct (sift (remove1 x cl) us) as [[k1 c1] o1] eqn:E1. injection H as <- <- <-.
+      unfold view, n_cancel in *. simpl. rewrite (IH _ _ _ _ E1). destruct (x =? u); reflexivity.
+    + destruct (sift cl us) as [[k1 c1] o1] eqn:E1. injection H as <- <- <-. eapply IH; eauto.
 Qed.
 
-Lemma pv_unnamed : forall u us bl, pv u (unnamed us bl) = unnamed us (pv u bl).
+(* ---------------- key lists ---------------- *)
+Lemma kl_aext : forall k n us bl, key_list k (aext n us bl) = if n =? k then key_list k bl ++ us else key_list k bl.
 Proof.
-  intros u us bl; induction bl as [|[n l] bl IH]; simpl; [reflexivity|].
-  rewrite IH, only_unnamed. reflexivity.
+  intros k n us bl. unfold key_list, aext. rewrite alook_aset. destruct (n =? k) eqn:E; [|reflexivity].
+  apply Z.eqb_eq in E; subst n. destruct (alook k bl); reflexivity.
 Qed.
 
-Lemma only_concat_matches : forall u us bl,
-  only u (concat (map (fun p => matches us (snd p)) bl))
-  = concat (map (fun p => matches us (snd p)) (pv u bl)).
+Lemma kl_adel : forall k n bl, NoDup (map fst bl) ->
+  key_list k (adel n bl) = if n =? k then [] else key_list k bl.
 Proof.
-  intros u us bl; induction bl as [|[n l] bl IH]; simpl; [reflexivity|].
-  rewrite only_app, IH, only_matches. reflexivity.
+  intros k n bl Hd. unfold key_list. destruct (n =? k) eqn:E.
+  - apply Z.eqb_eq in E; subst n. rewrite alook_adel_same by exact Hd. reflexivity.
+  - rewrite alook_adel_other by lia. reflexivity.
 Qed.
 
-Lemma only_none : forall u l, ~ In u l -> only u l = [].
+Lemma kl_unnamed : forall k us bl,
+  key_list k (unnamed us bl) = filter (fun x => negb (zmem x us)) (key_list k bl).
+Proof. intros k us bl. unfold key_list. rewrite unnamed_look. destruct (alook k bl); reflexivity. Qed.
+
+Lemma cnt_unnamed : forall u us l,
+  cnt u (filter (fun x => negb (zmem x us)) l) = if zmem u us then 0%nat else cnt u l.
 Proof.
-  intros u l; induction l as [|x l IH]; simpl; intros H; [reflexivity|].
-  unfold only in *. simpl. destruct (x =? u) eqn:E; [exfalso; apply H; left; lia | apply IH; tauto].
+  intros u us l. destruct (zmem u us) eqn:E.
+  - apply cnt_filter_out. rewrite E. reflexivity.
+  - apply cnt_filter_in. rewrite E. reflexivity.
 Qed.
 
-Lemma only_unnamed_other : forall u us l, ~ In u us -> only u (filter (fun x => negb (zmem x us)) l) = only u l.
+Lemma tot_unnamed : forall u us bl, tot u (unnamed us bl) = if zmem u us then 0%nat else tot u bl.
 Proof.
-  intros u us l H; induction l as [|x l IH]; simpl; [reflexivity|].
-  unfold only in *. destruct (zmem x us) eqn:E1; simpl.
-  - destruct (x =? u) eqn:E2; [|exact IH]. apply Z.eqb_eq in E2; subst x. apply zmem_In in E1. tauto.
-  - rewrite IH. reflexivity.
+  intros u us bl. destruct (zmem u us) eqn:E.
+  - apply tot_unnamed_in. apply zmem_In. exact E.
+  - apply tot_unnamed_out. intros H. apply zmem_In in H. congruence.
 Qed.
 
-Lemma pv_unnamed_other : forall u us bl, ~ In u us -> pv u (unnamed us bl) = pv u bl.
+Lemma tot_adel_kl : forall u n bl, (tot u (adel n bl) + cnt u (key_list n bl))%nat = tot u bl.
 Proof.
-  intros u us bl H; induction bl as [|[n l] bl IH]; simpl; [reflexivity|].
-  rewrite IH, only_unnamed_other by exact H. reflexivity.
+  intros u n bl. unfold key_list. destruct (alook n bl) as [l|] eqn:E.
+  - apply tot_look_del; exact E.
+  - simpl. assert (adel n bl = bl); [|rewrite H; lia].
+    clear u. induction bl as [|[m w] bl IH]; simpl in *; [reflexivity|].
+    destruct (m =? n); [discriminate | rewrite IH; [reflexivity | exact E]].
+Qed.
+
+(* ---------------- one raptor name of a drain ---------------- *)
+Inductive decision := DPut (q : Z) | DRR | DFail | DCache.
+Definition decide (qs : list (Z * Z)) (gn : list Z) (n : Z) : decision :=
+  match alook n qs with
+  | Some q => DPut q
+  | None => if negb (is_nil qs) && (n =? star) then DRR else if zmem n gn then DFail else DCache
+  end.
+Definition dview (d : decision) (c : nat) : list uev :=
+  match d with DPut q => repeat (EFwd q) c | DRR => repeat EFwdAny c | DFail => repeat EFail c | DCache => [] end.
+
+Lemma fwd_group_view : forall u qs gn bl cl n us bl' cl' o,
+  fwd_group qs gn bl cl n us = (bl', cl', o) ->
+  let c := (cnt u us - Nat.min (cnt u cl) (cnt u us))%nat in
+  view u o = repeat ECancel (Nat.min (cnt u cl) (cnt u us)) ++ dview (decide qs gn n) c
+  /\ (cnt u cl' + Nat.min (cnt u cl) (cnt u us))%nat = cnt u cl
+  /\ (forall j, kcnt u j bl' = (kcnt u j bl + match decide qs gn n with DCache => if Z.eqb n j then c else 0 | _ => 0 end)%nat)
+  /\ tot u bl' = (tot u bl + match decide qs gn n with DCache => c | _ => 0 end)%nat.
+Proof.
+  intros u qs gn bl cl n us bl' cl' o H c. unfold fwd_group in H.
+  destruct (sift cl us) as [[k c1] o0] eqn:Es.
+  destruct (sift_spec u _ _ _ _ _ Es) as [A [_ [_ [D F]]]].
+  pose proof (view_sift u _ _ _ _ _ Es) as V. rewrite D in V.
+  assert (Hk : cnt u k = c) by (unfold c; lia).
+  unfold decide.
+  destruct (is_nil k) eqn:Ek.
+  - injection H as <- <- <-. destruct k; [|discriminate]. simpl in Hk. rewrite <- Hk.
+    split; [rewrite V; destruct (alook n qs); [|destruct (negb (is_nil qs) && (n =? star)); [|destruct (zmem n gn)]];
+            simpl; rewrite app_nil_r; reflexivity|].
+    split; [lia|]. split; [intros j|];
+      (destruct (alook n qs); [|destruct (negb (is_nil qs) && (n =? star)); [|destruct (zmem n gn)]]);
+      try destruct (n =? j); lia.
+  - destruct (alook n qs) as [q|].
+    + injection H as <- <- <-. rewrite view_app, V. unfold view at 1; simpl. rewrite app_nil_r, Hk.
+      repeat split; intros; lia.
+    + destruct (negb (is_nil qs) && (n =? star)).
+      * injection H as <- <- <-. rewrite view_app, V, view_rr, Hk. repeat split; intros; lia.
+      * destruct (zmem n gn).
+        -- injection H as <- <- <-. rewrite view_app, V, view_map_OFail, Hk. repeat split; intros; lia.
+        -- injection H as <- <- <-. rewrite V. simpl. rewrite app_nil_r. split; [reflexivity|]. split; [lia|].
+           split; [|rewrite tot_aext; lia].
+           intros j. unfold kcnt. rewrite kl_aext. destruct (n =? j); [rewrite cnt_app|]; lia.
+Qed.
+
+Lemma fwd_group_sim : forall u qs gn n us bl1 cl1 bl2 cl2 bl1' cl1' o1 bl2' cl2' o2,
+  cnt u cl1 = cnt u cl2 -> (forall k, kcnt u k bl1 = kcnt u k bl2) -> tot u bl1 = tot u bl2 ->
+  fwd_group qs gn bl1 cl1 n us = (bl1', cl1', o1) -> fwd_group qs gn bl2 cl2 n us = (bl2', cl2', o2) ->
+  cnt u cl1' = cnt u cl2' /\ (forall k, kcnt u k bl1' = kcnt u k bl2') /\ tot u bl1' = tot u bl2' /\ view u o1 = view u o2.
+Proof.
+  intros u qs gn n us bl1 cl1 bl2 cl2 bl1' cl1' o1 bl2' cl2' o2 Hc Hk Ht H1 H2.
+  destruct (fwd_group_view u _ _ _ _ _ _ _ _ _ H1) as [V1 [C1 [K1 T1]]].
+  destruct (fwd_group_view u _ _ _ _ _ _ _ _ _ H2) as [V2 [C2 [K2 T2]]].
+  rewrite Hc in *. repeat split; try lia.
+  - intros k. rewrite K1, K2, Hk. reflexivity.
+  - rewrite V1, V2. reflexivity.
+Qed.
+
+Lemma fwd_groups_sim : forall u qs gn g bl1 cl1 bl2 cl2 bl1' cl1' o1 bl2' cl2' o2,
+  cnt u cl1 = cnt u cl2 -> (forall k, kcnt u k bl1 = kcnt u k bl2) -> tot u bl1 = tot u bl2 ->
+  fwd_groups qs gn bl1 cl1 g = (bl1', cl1', o1) -> fwd_groups qs gn bl2 cl2 g = (bl2', cl2', o2) ->
+  cnt u cl1' = cnt u cl2' /\ (forall k, kcnt u k bl1' = kcnt u k bl2') /\ tot u bl1' = tot u bl2' /\ view u o1 = view u o2.
+Proof.
+  intros u qs gn g; induction g as [|[n us] g IH]; intros bl1 cl1 bl2 cl2 bl1' cl1' o1 bl2' cl2' o2 Hc Hk Ht H1 H2;
+    simpl in H1, H2.
+  - injection H1 as <- <- <-. injection H2 as <- <- <-. auto.
+  - destruct (fwd_group qs gn bl1 cl1 n us) as [[a1 c1] x1] eqn:E1.
+    destruct (fwd_group qs gn bl2 cl2 n us) as [[a2 c2] x2] eqn:E2.
+    destruct (fwd_groups qs gn a1 c1 g) as [[b1 d1] y1] eqn:F1.
+    destruct (fwd_groups qs gn a2 c2 g) as [[b2 d2] y2] eqn:F2.
+    injection H1 as <- <- <-. injection H2 as <- <- <-.
+    destruct (fwd_group_sim _ _ _ _ _ _ _ _ _ _ _ _ _ _ _ Hc Hk Ht E1 E2) as [A1 [A2 [A3 A4]]].
+    destruct (IH _ _ _ _ _ _ _ _ _ _ A1 A2 A3 F1 F2) as [B1 [B2 [B3 B4]]].
+    rewrite !view_app, A4, B4. auto.
+Qed.
+
+(* ---------------- register / unregister ---------------- *)
+Lemma relay_key_view : forall u q k bl bl' o, NoDup (map fst bl) -> relay_key q k bl = (bl', o) ->
+  view u o = repeat (EFwd q) (kcnt u k bl)
+  /\ (forall j, kcnt u j bl' = if k =? j then 0%nat else kcnt u j bl)
+  /\ (tot u bl' + kcnt u k bl)%nat = tot u bl /\ NoDup (map fst bl').
+Proof.
+  intros u q k bl bl' o Hd H. rewrite relay_key_spec in H by exact Hd. injection H as <- <-.
+  unfold kcnt. split; [|split; [|split]].
+  - unfold key_list. destruct (alook k bl); [unfold view; simpl; rewrite app_nil_r|]; reflexivity.
+  - intros j. rewrite <- adel_without by exact Hd. rewrite kl_adel by exact Hd. destruct (k =? j); reflexivity.
+  - rewrite <- adel_without by exact Hd. apply tot_adel_kl.
+  - apply keys_without_nodup; exact Hd.
 Qed.
 
 (* ---------------- one operation on two states that agree about u ---------------- *)
 Lemma step_sim : forall u o s1 s2 s1' e1 s2' e2,
-  sim u s1 s2 -> step s1 o = (s1', e1) -> step s2 o = (s2', e2) ->
+  inv s1 -> inv s2 -> sim u s1 s2 -> step s1 o = (s1', e1) -> step s2 o = (s2', e2) ->
   sim u s1' s2' /\ view u e1 = view u e2.
 Proof.
-  intros u o s1 s2 s1' e1 s2' e2 [Hi [Hq Hb]] H1 H2.
+  intros u o s1 s2 s1' e1 s2' e2 I1 I2 [Hi [Hq [Hg [Hc [Hk Ht]]]]] H1 H2.
   destruct o as [b| |n q|n|us]; simpl in H1, H2.
-  - injection H1 as <- <-. injection H2 as <- <-. unfold sim; simpl. rewrite Hi, Hq. auto.
-  - unfold drain in *. rewrite <- Hi, <- Hq in H2.
-    destruct (fwd_groups (queues s1) (backlog s1) (collect (concat (inq s1)))) as [b1 o1] eqn:E1.
-    destruct (fwd_groups (queues s1) (backlog s2) (collect (concat (inq s1)))) as [b2 o2] eqn:E2.
+  - injection H1 as <- <-. injection H2 as <- <-. unfold sim; simpl. rewrite Hi. auto 10.
+  - unfold drain in *. rewrite <- Hi, <- Hq, <- Hg in H2.
+    destruct (fwd_groups (queues s1) (gone s1) (backlog s1) (clist s1) (collect (concat (inq s1)))) as [[b1 c1] o1] eqn:E1.
+    destruct (fwd_groups (queues s1) (gone s1) (backlog s2) (clist s2) (collect (concat (inq s1)))) as [[b2 c2] o2] eqn:E2.
     injection H1 as <- <-. injection H2 as <- <-.
-    destruct (fwd_groups_sim _ _ _ _ _ _ _ _ _ Hb E1 E2) as [A ->].
-    unfold sim; simpl. auto.
+    destruct (fwd_groups_sim _ _ _ _ _ _ _ _ _ _ _ _ _ _ Hc Hk Ht E1 E2) as [A1 [A2 [A3 A4]]].
+    unfold sim; simpl. rewrite !view_app, A4. auto 10.
   - unfold register in *.
     destruct (relay_key q n (backlog s1)) as [a1 x1] eqn:E1. destruct (relay_key q n (backlog s2)) as [a2 x2] eqn:E2.
     destruct (relay_key q star a1) as [b1 y1] eqn:F1. destruct (relay_key q star a2) as [b2 y2] eqn:F2.
     injection H1 as <- <-. injection H2 as <- <-.
-    destruct (relay_key_sim _ _ _ _ _ _ _ _ _ Hb E1 E2) as [A V1].
-    destruct (relay_key_sim _ _ _ _ _ _ _ _ _ A F1 F2) as [B V2].
-    unfold sim; simpl. rewrite Hi, Hq, !view_app, V1, V2. auto.
+    destruct (relay_key_view u _ _ _ _ _ (inv_bkeys _ I1) E1) as [V1 [K1 [T1 D1]]].
+    destruct (relay_key_view u _ _ _ _ _ (inv_bkeys _ I2) E2) as [V2 [K2 [T2 D2]]].
+    destruct (relay_key_view u _ _ _ _ _ D1 F1) as [V3 [K3 [T3 _]]].
+    destruct (relay_key_view u _ _ _ _ _ D2 F2) as [V4 [K4 [T4 _]]].
+    pose proof (Hk n) as Hn. pose proof (Hk star) as Hs.
+    assert (Hs' : kcnt u star a1 = kcnt u star a2) by (rewrite K1, K2, Hs; reflexivity).
+    unfold sim; simpl. rewrite !view_app, V1, V2, V3, V4, Hn, Hs', Hi, Hq, Hg. repeat split; auto; try lia.
+    intros k. rewrite K3, K4, K1, K2, Hk. reflexivity.
   - unfold unregister in *. rewrite <- Hq in H2.
-    pose proof (look_sim u n _ _ Hb) as L.
-    destruct (alook n (queues s1));
-      destruct (alook n (backlog s1)) as [l1|]; destruct (alook n (backlog s2)) as [l2|];
-      simpl in L; try discriminate; injection H1 as <- <-; injection H2 as <- <-;
-      try (injection L as L); unfold sim; simpl; rewrite ?view_app, ?view_map_OFail, ?pv_adel, ?L, ?Hb, ?Hi; auto.
+    assert (B : forall s, inv s ->
+              (match alook n (backlog s) with
+               | Some us => (adel n (backlog s), map OFail us) | None => (backlog s, []) end)
+              = (adel n (backlog s), map OFail (key_list n (backlog s)))).
+    { intros s I. unfold key_list. destruct (alook n (backlog s)) eqn:E; [reflexivity|].
+      rewrite adel_without by (apply inv_bkeys; exact I).
+      rewrite without_notin; [reflexivity | apply alook_none_notin; exact E]. }
+    rewrite (B s1 I1) in H1. rewrite (B s2 I2) in H2.
+    destruct (match alook n (queues s1) with
+              | None => (queues s1, [OWarn n]) | Some _ => (adel n (queues s1), []) end) as [qs o1].
+    injection H1 as <- <-. injection H2 as <- <-.
+    pose proof (tot_adel_kl u n (backlog s1)) as T1. pose proof (tot_adel_kl u n (backlog s2)) as T2.
+    pose proof (Hk n) as Hn. unfold kcnt in Hn.
+    unfold sim; simpl. rewrite !view_app, !view_map_OFail, Hn, Hi, Hg. repeat split; auto; try lia.
+    intros k. unfold kcnt. rewrite !kl_adel by (apply inv_bkeys; assumption).
+    destruct (n =? k); [reflexivity | apply Hk].
   - unfold cancel in *. rewrite cancel_walk_spec in H1, H2.
     injection H1 as <- <-. injection H2 as <- <-.
-    unfold sim; simpl. rewrite !pv_unnamed, Hb, Hi, Hq. repeat split.
-    unfold view; simpl. rewrite !only_concat_matches, Hb. reflexivity.
+    pose proof (cancel_walk_counts u us (backlog s1) _ _ (cancel_walk_spec us (backlog s1))) as C1.
+    pose proof (cancel_walk_counts u us (backlog s2) _ _ (cancel_walk_spec us (backlog s2))) as C2.
+    rewrite tot_unnamed in C1, C2.
+    unfold sim; simpl. rewrite !cnt_app, !tot_unnamed, Hi, Hq, Hg, Hc, Ht. repeat split; auto.
+    + intros k. unfold kcnt. rewrite !kl_unnamed, !cnt_unnamed. destruct (zmem u us); [reflexivity | apply Hk].
+    + unfold view; simpl. rewrite !app_nil_r. f_equal. destruct (zmem u us); lia.
 Qed.
 
 Lemma run_sim : forall u ops s1 s2 s1' e1 s2' e2,
-  sim u s1 s2 -> run s1 ops = (s1', e1) -> run s2 ops = (s2', e2) ->
+  inv s1 -> inv s2 -> sim u s1 s2 -> run s1 ops = (s1', e1) -> run s2 ops = (s2', e2) ->
   sim u s1' s2' /\ view u e1 = view u e2.
 Proof.
-  intros u ops; induction ops as [|o ops IH]; intros s1 s2 s1' e1 s2' e2 S H1 H2; simpl in H1, H2.
+  intros u ops; induction ops as [|o ops IH]; intros s1 s2 s1' e1 s2' e2 I1 I2 S H1 H2; simpl in H1, H2.
   - injection H1 as <- <-. injection H2 as <- <-. auto.
   - destruct (step s1 o) as [a1 x1] eqn:E1. destruct (step s2 o) as [a2 x2] eqn:E2.
     destruct (run a1 ops) as [b1 y1] eqn:F1. destruct (run a2 ops) as [b2 y2] eqn:F2.
     injection H1 as <- <-. injection H2 as <- <-.
-    destruct (step_sim _ _ _ _ _ _ _ _ S E1 E2) as [A V1].
-    destruct (IH _ _ _ _ _ _ A F1 F2) as [B V2].
+    destruct (step_sim _ _ _ _ _ _ _ _ I1 I2 S E1 E2) as [A V1].
+    destruct (IH _ _ _ _ _ _ (step_inv _ _ _ _ E1 I1) (step_inv _ _ _ _ E2 I2) A F1 F2) as [B V2].
     rewrite !view_app, V1, V2. auto.
 Qed.
 
@@ -207,11 +270,13 @@ Lemma cancel_invisible : forall u us s s' e,
   ~ In u us -> step s (Cancel us) = (s', e) -> sim u s' s /\ view u e = [].
 Proof.
   intros u us s s' e Hu H. simpl in H. unfold cancel in H. rewrite cancel_walk_spec in H.
-  injection H as <- <-. unfold sim; simpl. rewrite pv_unnamed_other by exact Hu. repeat split.
-  unfold view; simpl. rewrite only_none; [reflexivity|].
-  intros HIn. apply in_concat in HIn. destruct HIn as [l [Hl HIn]].
-  apply in_map_iff in Hl. destruct Hl as [p [<- _]]. unfold matches in HIn.
-  apply filter_In in HIn. destruct HIn as [_ HIn]. apply zmem_In in HIn. tauto.
+  injection H as <- <-.
+  assert (Z0 : zmem u us = false) by (destruct (zmem u us) eqn:E; [apply zmem_In in E; tauto | reflexivity]).
+  pose proof (cancel_walk_counts u us (backlog s) _ _ (cancel_walk_spec us (backlog s))) as C.
+  rewrite tot_unnamed, Z0 in C.
+  unfold sim; simpl. rewrite cnt_app, tot_unnamed, Z0, (cnt_zero_notin u us Hu). repeat split; auto; try lia.
+  - intros k. unfold kcnt. rewrite kl_unnamed, cnt_unnamed, Z0. reflexivity.
+  - unfold view; simpl. rewrite app_nil_r. replace (cnt u _) with 0%nat by lia. reflexivity.
 Qed.
 
 (* THE frame theorem: for every history, a cancel request placed anywhere in
@@ -228,30 +293,31 @@ Proof.
   destruct (run s2 ops2) as [s3 e3] eqn:E3. destruct (run s1 ops2) as [s4 e4] eqn:E4.
   injection H as <- <-. injection H' as <- <-.
   destruct (cancel_invisible _ _ _ _ _ Hu E2) as [S V].
-  destruct (run_sim _ _ _ _ _ _ _ _ S E3 E4) as [S' V'].
+  pose proof (reachable_inv _ _ _ E1) as I1.
+  destruct (run_sim _ _ _ _ _ _ _ _ (step_inv _ _ _ _ E2 I1) I1 S E3 E4) as [S' V'].
   rewrite !view_app, V, V'. auto.
 Qed.
 
 (* the counts of the conservation law are read off the view *)
-Lemma cnt_only : forall u l, cnt u (only u l) = cnt u l.
-Proof. intros; unfold only; apply cnt_filter_in; apply Z.eqb_refl. Qed.
+Definition v_fwd (l : list uev) : nat := length (filter (fun x => match x with EFwd _ | EFwdAny => true | _ => false end) l).
+Definition v_fail (l : list uev) : nat := length (filter (fun x => match x with EFail => true | _ => false end) l).
+Definition v_cancel (l : list uev) : nat := length (filter (fun x => match x with ECancel => true | _ => false end) l).
 
-Lemma cnt_only_nil : forall u l, only u l = [] -> cnt u l = 0%nat.
-Proof. intros u l H. rewrite <- cnt_only, H. reflexivity. Qed.
+Lemma filter_repeat : forall {A} (f : A -> bool) x n,
+  length (filter f (repeat x n)) = if f x then n else 0%nat.
+Proof.
+  intros A f x n; induction n as [|n IH]; simpl; [destruct (f x); reflexivity|].
+  destruct (f x) eqn:E; simpl; rewrite IH; reflexivity.
+Qed.
 
 Lemma counts_of_view : forall u e,
-  n_fwd u (view u e) = n_fwd u e /\ n_fail u (view u e) = n_fail u e /\ n_cancel u (view u e) = n_cancel u e.
+  v_fwd (view u e) = n_fwd u e /\ v_fail (view u e) = n_fail u e /\ v_cancel (view u e) = n_cancel u e.
 Proof.
   intros u e; induction e as [|o e [I1 [I2 I3]]]; [auto|].
-  unfold view in *. simpl. fold (view u e) in *.
-  change (flat_map (view1 u) e) with (view u e).
-  rewrite n_fwd_app, n_fail_app, n_cancel_app, I1, I2, I3.
-  unfold n_fwd, n_fail, n_cancel.
-  destruct o as [q us|q v|v|us|us|n]; simpl; rewrite ?cnt_only; try (repeat split; lia).
-  - destruct (v =? u) eqn:E; simpl; rewrite ?E; repeat split; lia.
-  - destruct (is_nil (only u us)) eqn:E; simpl; rewrite ?cnt_only; try (repeat split; lia).
-    assert (only u us = []) by (destruct (only u us); [reflexivity | discriminate]).
-    rewrite (cnt_only_nil _ _ H). repeat split; lia.
+  unfold view, v_fwd, v_fail, v_cancel, n_fwd, n_fail, n_cancel in *. simpl.
+  rewrite !filter_app, !app_length, I1, I2, I3.
+  destruct o as [q us|q v|v|us|v|us|n]; simpl; rewrite ?filter_repeat; try (repeat split; lia);
+    destruct (v =? u); simpl; repeat split; lia.
 Qed.
 
 Theorem bystander_same_counts : forall ops1 us ops2 u s e s' e',
@@ -261,11 +327,8 @@ Theorem bystander_same_counts : forall ops1 us ops2 u s e s' e',
   /\ n_inq u s = n_inq u s' /\ tot u (backlog s) = tot u (backlog s').
 Proof.
   intros ops1 us ops2 u s e s' e' Hu H H'.
-  destruct (bystander_frame _ _ _ _ _ _ _ _ Hu H H') as [V [Si [_ Sb]]].
+  destruct (bystander_frame _ _ _ _ _ _ _ _ Hu H H') as [V [Si [_ [_ [_ [_ St]]]]]].
   destruct (counts_of_view u e) as [A1 [A2 A3]]. destruct (counts_of_view u e') as [B1 [B2 B3]].
-  rewrite <- A1, <- A2, <- A3, V, B1, B2, B3. repeat split; try reflexivity.
-  - unfold n_inq. rewrite Si. reflexivity.
-  - assert (T : forall bl, tot u (pv u bl) = tot u bl).
-    { intros bl; induction bl as [|[n l] bl IH]; simpl; [reflexivity | rewrite IH, cnt_only; reflexivity]. }
-    rewrite <- (T (backlog s)), Sb, T. reflexivity.
+  rewrite <- A1, <- A2, <- A3, V, B1, B2, B3. repeat split; try reflexivity; try exact St.
+  unfold n_inq. rewrite Si. reflexivity.
 Qed.
